@@ -115,13 +115,15 @@ theorem parse_compact (r : CompactSensor) (h : r.wf = true) :
 theorem parse_fruLocator (r : FruLocator) (h : r.wf = true) :
     parseSdr Variant.intended r.encode = .ok ⟨.fruLocator, r.view, []⟩ := by
   simp only [FruLocator.wf, Bool.and_eq_true, decide_eq_true_eq] at h
-  obtain ⟨⟨⟨⟨⟨⟨⟨⟨⟨⟨⟨h1, h2⟩, h3⟩, h4⟩, h5⟩, h6⟩, h7⟩, h8⟩, h9⟩, h10⟩, h11⟩, hid⟩ := h
+  obtain ⟨⟨⟨⟨⟨⟨⟨⟨⟨⟨⟨⟨h1, h2⟩, h3⟩, h4⟩, h5⟩, h6⟩, h6'⟩, h7⟩, h8⟩, h9⟩, h10⟩, h11⟩, hid⟩ := h
   have hk : kindOf 0x11 = .fruLocator := by decide
   have hi : Gen.SdrTables.typeIndex = 3 := by decide
   have ha : (r.accessAddress * 2) >>> 1 = r.accessAddress := by omega
+  have hc : (r.channelNumber * 16 + r.channelLow) >>> 4 = r.channelNumber := by omega
+  have fc : Variant.intended.chanRaw = false := rfl
   simp only [FruLocator.encode, FruLocator.body, header, List.cons_append, List.nil_append, parseSdr, hi,
     List.getElem?_cons_succ, List.getElem?_cons_zero, hk, parseKind, parseFruLocator, withId_encode _ _ hid,
-    leOr2_split _ h1, ha, FruLocator.view, headerView]
+    leOr2_split _ h1, ha, hc, fc, Bool.false_eq_true, if_false, FruLocator.view, headerView]
 
 theorem parse_mcLocator (r : McLocator) (h : r.wf = true) :
     parseSdr Variant.intended r.encode = .ok ⟨.mcLocator, r.view, [("global_initialization", .nat 0)]⟩ := by
@@ -140,8 +142,11 @@ theorem parse_mcLocator (r : McLocator) (h : r.wf = true) :
 theorem parse_mcConfirmation (r : McConfirmation) (h : r.wf = true) :
     parseSdr Variant.intended r.encode = .ok ⟨.mcConfirmation, r.view, []⟩ := by
   simp only [McConfirmation.wf, Bool.and_eq_true, decide_eq_true_eq, beq_iff_eq, List.all_eq_true] at h
-  obtain ⟨⟨⟨⟨⟨⟨⟨⟨⟨⟨⟨h1, h2⟩, h3⟩, h4⟩, h5⟩, h6⟩, h7⟩, h8⟩, h9⟩, h10⟩, hl⟩, hg⟩ := h
+  obtain ⟨⟨⟨⟨⟨⟨⟨⟨⟨⟨⟨⟨h1, h2⟩, h3⟩, h4⟩, h5⟩, h5'⟩, h6⟩, h7⟩, h8⟩, h9⟩, h10⟩, hl⟩, hg⟩ := h
   have hk : kindOf 0x13 = .mcConfirmation := by decide
+  have hc : (r.channelNumber * 16 + r.deviceRevision) >>> 4 = r.channelNumber := by omega
+  have hd : (r.channelNumber * 16 + r.deviceRevision) &&& 0xf = r.deviceRevision := by rw [and_f]; omega
+  have fc : Variant.intended.chanRaw = false := rfl
   have hi : Gen.SdrTables.typeIndex = 3 := by decide
   have ha : (r.slaveAddress * 2) >>> 1 = r.slaveAddress := by omega
   have hm : leOr [r.manufacturerId % 256, r.manufacturerId / 256 % 256, r.manufacturerId / 65536] &&& 0xfffff
@@ -152,7 +157,8 @@ theorem parse_mcConfirmation (r : McConfirmation) (h : r.wf = true) :
   have hguid : leOr r.guid = leValue r.guid := leOr_eq_leValue _ (by simpa using hg)
   simp only [McConfirmation.encode, McConfirmation.body, header, List.cons_append, List.nil_append, parseSdr, hi,
     List.getElem?_cons_succ, List.getElem?_cons_zero, hk, parseKind, parseMcConfirmation, hlen, if_false,
-    leOr2_split _ h1, leOr2_split _ h10, ha, hm, htake, hguid, McConfirmation.view, headerView]
+    leOr2_split _ h1, leOr2_split _ h10, ha, hm, htake, hguid, hc, hd, fc, Bool.false_eq_true,
+    List.cons_append, List.nil_append, McConfirmation.view, headerView]
 
 theorem parse_unknown (r : Opaque) (h : r.wf = true) (ht : kindOfType r.type = .unknown) :
     parseSdr Variant.intended r.encode = .ok ⟨.unknown, r.view, []⟩ := by
